@@ -230,7 +230,8 @@ class C04(Check):
                        "type-aware recursive field dump used to compare parsed PDUs"]
     assumptions = ["baseline for 'different field values' is the parse of the uncorrupted wire bits (encoder fidelity is C03's subject)",
                    "CRC-9 patterns stop at weight 2 and HRNP bursts at 15 bits: that is the codes' real guarantee",
-                   "known findings are matched narrowly: (a) received check field all-zero, (d) accepted PDU re-serialises differently from the received covered bits"]
+                   "known findings are matched narrowly: (a) received check field all-zero, (d) accepted PDU re-serialises differently from the received covered bits",
+                   "an accepted corruption with EQUAL field values (bits the PDU does not carry) is reported too (C04.corruption-accepted-equal-fields): the indicator must tell the truth about the received bits"]
     exhaustive = {}
 
     def preload(self):
@@ -283,9 +284,12 @@ class C04(Check):
         from bitarray import bitarray
         from bitarray.util import ba2int, int2ba
 
+        from dsim import known
+
         res = core.RunResult()
         log = core.EventLog()
         seen = {}
+        kf = known.load()
 
         def fail(oracle, site, detail, sub, sig):
             key = (oracle, site, bool(sig.get("check_zero")), bool(sig.get("reser_differs")))
@@ -315,7 +319,7 @@ class C04(Check):
             words = [tuple(o) for o in case["ops"]] if "ops" in case else None
             rng = [int(o, 2) for o in case["ops"]] if "ops" in case else range(case["range"][0], min(case["range"][1], 1 << n))
             acc = 0
-            for wi in rng:
+            for wpos, wi in enumerate(rng):
                 wd = int2ba(wi, n)
                 res["evals"] += 1
                 try:
@@ -328,9 +332,16 @@ class C04(Check):
                     continue  # a decode error is an allowed outcome only for non-members
                 if got != member:
                     zero = not wd[k:].any()
+                    sig = {"kind": kind, "check_zero": zero and not member}
+                    v0 = {"oracle": "C04.small-word-membership", "sig": sig}
+                    # the replayable case is the single word, unless no known finding explains it: then the parse history of this
+                    # block up to the word is kept (an indicator may depend on words parsed earlier) and minimised by ddmin
+                    hist = [wd.to01()]
+                    if known.match(kf, "C04", v0) is None and "range" in case:
+                        hist = [int2ba(x, n).to01() for x in range(case["range"][0], wi + 1)]
                     fail("C04.small-word-membership", f"{kind}:{'accepts-non-codeword' if got else 'rejects-codeword'}",
                          f"{kind} received word {wd.to01()}: {ind}={got}, word is {'a' if member else 'not a'} codeword of the FEC",
-                         {"task": task, "ops": [wd.to01()]}, {"kind": kind, "check_zero": zero and not member})
+                         {"task": task, "ops": hist}, sig)
             if "range" in case:
                 res["cov"].add(f"{kind}|all-words|{case['range'][0] >> 12}")
                 res.fault("received_word_sweep", len(rng))
@@ -389,17 +400,16 @@ class C04(Check):
             if not ind:
                 res["cov"].add(f"{kind}|{cls}|{hit}|false")
                 continue
-            if canon(q) == bf:
-                res["cov"].add(f"{kind}|{cls}|{hit}|accepted-equal-fields")
-                continue
+            same_fields = canon(q) == bf
             check_zero = not any(c[i] for i in chk)
             try:
                 wq = reserialise(kind, q)
                 reser = len(wq) != len(c) or any(wq[i] != c[i] for i in range(n) if i not in chkset)
             except Exception:
                 reser = True
-            fail("C04.silent-accept", f"{kind}:{cls}",
-                 f"{kind}: wire {case['wire']} with bits {list(p)} inverted is accepted (indicator True) with different field values"
+            res["cov"].add(f"{kind}|{cls}|{hit}|accepted-{'equal' if same_fields else 'different'}-fields")
+            fail("C04.corruption-accepted-equal-fields" if same_fields else "C04.silent-accept", f"{kind}:{cls}",
+                 f"{kind}: wire {case['wire']} with bits {list(p)} inverted is accepted (indicator True) with {'equal' if same_fields else 'different'} field values"
                  f"{' [received check field all-zero]' if check_zero else ''}{' [accepted PDU re-serialises differently from the received bits]' if reser else ''}",
                  dict(sub0, ops=[list(p)], pclass=cls), {"kind": kind, "check_zero": check_zero, "reser_differs": reser})
         for k2 in ("w1", "burst", "w2", "w3", "replay"):
